@@ -228,10 +228,11 @@ theorem getD_map_of_getElem? {α : Type} (l : List α) (g : α → Bytes) (i : N
   simp [List.getD_eq_getElem?_getD, h]
 
 /-- the field sections of all packets of a well-formed reply give back the players and the teams -/
-theorem parsePlayersAndTeams_spec (cfg : Config) (st : State) (h : LayoutOk cfg st) :
-    parsePlayersAndTeams (cfg.layout.map (encSlices st)) = .ok (st.players, st.teams) := by
+theorem parsePlayersAndTeams_of_run (cfg : Config) (st : State) (h : LayoutOk cfg st) (packets : List Bytes)
+    (hrun : readAllSections Tables.init packets = .ok (cfg.layout.flatten.foldl (applySlice st) Tables.init)) :
+    parsePlayersAndTeams packets = .ok (st.players, st.teams) := by
   unfold parsePlayersAndTeams
-  rw [readAllSections_run st cfg.layout (fun sl hsl => slice_values_ok cfg st h sl hsl) Tables.init]
+  rw [hrun]
   simp only [Res.bind_ok]
   have hcp := columnsOf_players st (fun l hl => (h.pids l hl).1)
   have hct := columnsOf_teams st
@@ -288,6 +289,11 @@ theorem parsePlayersAndTeams_spec (cfg : Config) (st : State) (h : LayoutOk cfg 
       = tbl (cfg.layout.flatten.foldl (applySlice st) Tables.init) true := rfl
   rw [hplayers, hteams]
   rfl
+
+theorem parsePlayersAndTeams_spec (cfg : Config) (st : State) (h : LayoutOk cfg st) :
+    parsePlayersAndTeams (cfg.layout.map (encSlices st)) = .ok (st.players, st.teams) :=
+  parsePlayersAndTeams_of_run cfg st h _
+    (readAllSections_run st cfg.layout (fun sl hsl => slice_values_ok cfg st h sl hsl) Tables.init)
 
 end Gd.Gs3
 
@@ -535,8 +541,7 @@ theorem wf_parts (cfg : Config) (st : State) (h : wf cfg st = true) :
   obtain ⟨h1, h2⟩ := h
   exact ⟨h1, h2, h3, h4, h5, h6, h7, h8, h9, h10, h11, h12, h13⟩
 
-theorem wf_vars (cfg : Config) (st : State) (h : wf cfg st = true) : VarsOk st := by
-  obtain ⟨hv, _, _, hlisted, _⟩ := wf_parts cfg st h
+theorem varsOk_of (st : State) (hv : wfVars st = true) (hlisted : st.players.length < 2 ^ 32) : VarsOk st := by
   simp only [wfVars, Bool.and_eq_true] at hv
   obtain ⟨hv, t9⟩ := hv
   obtain ⟨hv, t8⟩ := hv
@@ -572,6 +577,10 @@ theorem wf_vars (cfg : Config) (st : State) (h : wf cfg st = true) : VarsOk st :
     exact Option.isSome_iff_exists.mp (all_of t7 v hv)
   · intro v hv
     exact Option.isSome_iff_exists.mp (all_of t8 v hv)
+
+theorem wf_vars (cfg : Config) (st : State) (h : wf cfg st = true) : VarsOk st := by
+  obtain ⟨hv, _, _, hlisted, _⟩ := wf_parts cfg st h
+  exact varsOk_of st hv hlisted
 
 theorem wf_layout (cfg : Config) (st : State) (h : wf cfg st = true) : LayoutOk cfg st := by
   obtain ⟨_, hp, ht, _, hpid, hsl, hcov, _⟩ := wf_parts cfg st h
